@@ -6,7 +6,7 @@ for l in open('/verif/properties.jsonl'):
     d = json.loads(l)
     if d['id'] == pid:
         break
-print(f"""You are testing how robust a Rust codebase's guarantees are. You work ONLY inside the scratch git worktree {wt} (a checkout of the radixdlt-scrypto repository: Radix Engine, a deterministic ledger transaction execution engine). Do not read or write anything under /verif or /repo; do not look outside {wt} except for the Rust toolchain. The machine is offline: always pass --offline to cargo. Use CARGO_TARGET_DIR={wt}/target and build only the crate(s) you need (e.g. `cargo test --offline -p <crate> --lib <filter>`), never the whole workspace; builds of radix-engine take several minutes, so be economical.
+print(f"""You are testing how robust a Rust codebase's guarantees are. You work ONLY inside the scratch git worktree {wt} (a checkout of the radixdlt-scrypto repository: Radix Engine, a deterministic ledger transaction execution engine). Do not read or write anything under /verif or /repo; do not look outside {wt} except for the Rust toolchain. The machine is offline: always pass --offline to cargo. Use CARGO_TARGET_DIR={wt}/target and build only the crate(s) you need (e.g. `cargo test --offline -p <crate> --lib <filter>`), never the whole workspace; builds of radix-engine take 30+ minutes and a first build of the radix-engine-tests crate takes 2-3 HOURS on this loaded machine, so be economical: prefer a demonstration and existing-test runs inside the crate you change (its lib tests or a new integration test file of that crate using its public API), and build radix-engine-tests only if there is no other way.
 
 PROPERTY that the code is supposed to guarantee:
   id: {d['id']}
